@@ -34,7 +34,7 @@ def run(ctx):
             calls = []
             for qi in range(6):      # solo, one thread: the reference rows
                 calls.append(dict(kind="hist", seed=seed, threads=1, qidx=[qi], rc=rc, tbins=tb))
-            hists = [[1, 0], [0, 1], [1, 2, 0, 4], [0, 0, 1, 1], [5, 4, 3, 2, 1, 0], [1, 1, 1, 0], [3, 1, 0, 1, 0]]
+            hists = [[1, 0], [0, 1], [1, 2, 0, 4], [0, 0, 1, 1], [5, 4, 3, 2, 1, 0], [1, 1, 1, 0], [3, 1, 0, 1, 0], [3, 4, 1, 2]]
             pool = list(range(6))
             for _ in range(4 if ctx.quick else 12):
                 k = rng.randint(2, 6)
